@@ -199,7 +199,8 @@ func runC08(c *core.Ctx) {
 
 // c08filledFromTable: is the value e, used at the point `at` of g, read from the named table on
 // every definition that can supply it? A definition counts as a table read when it is the (possibly
-// type-asserted) result of Store.get(<table>, ·, ·), the result of a same-package helper every return
+// type-asserted) result of Store.get(<table>, ·, ·), a (possibly type-asserted) function-local variable
+// every definition of which is in turn a table read or neutral, the result of a same-package helper every return
 // of which is such a read or nil, or a fresh object (&T{} / new(T)) that is handed to
 // Store.get(<table>, ·, obj) as the decoding target on every path from the definition to the use.
 // nil / zero definitions ("nothing stored") are neutral; anything else is not a table read. At least
@@ -213,6 +214,35 @@ func c08filledFromTable(g *core.FuncInfo, e ast.Expr, at core.Point, table strin
 	}
 	// 1 = table read, 0 = neutral, -1 = something else
 	var classify func(src ast.Expr, v *types.Var, defPt core.Point) int
+	// fromVar: every definition of the local w is a table read or neutral, at least one is a read
+	// (the locals on the current look-through chain are in seen: a cycle is not a table read)
+	seen := map[*types.Var]bool{}
+	fromVar := func(w *types.Var) bool {
+		if w == nil || w.IsField() || seen[w] {
+			return false
+		}
+		if w.Pkg() != nil && w.Parent() == w.Pkg().Scope() {
+			return false // package-level variable: its definitions are not all in g
+		}
+		seen[w] = true
+		defer delete(seen, w)
+		good := 0
+		for _, d := range assignsToVar(g, w) {
+			if d.RHS == nil {
+				if c33isValueSpec(d.Stmt) {
+					continue
+				}
+				return false
+			}
+			switch classify(d.RHS, w, d.Pt) {
+			case 1:
+				good++
+			case -1:
+				return false
+			}
+		}
+		return good > 0
+	}
 	classify = func(src ast.Expr, v *types.Var, defPt core.Point) int {
 		src = ast.Unparen(src)
 		if core.IsNil(g.Info(), src) {
@@ -220,6 +250,14 @@ func c08filledFromTable(g *core.FuncInfo, e ast.Expr, at core.Point, table strin
 		}
 		if ta, isTA := src.(*ast.TypeAssertExpr); isTA {
 			src = ast.Unparen(ta.X)
+		}
+		// the value (or the operand of the assertion) is held in another local of g: it is a table
+		// read when every definition of that local is (`got := s.get(t, k, &T{}); w, ok := got.(*T)`)
+		if w := varOf(g, src); w != nil && !w.IsField() && w != v {
+			if fromVar(w) {
+				return 1
+			}
+			return -1
 		}
 		if call, isC := src.(*ast.CallExpr); isC {
 			if isGet(call) {
@@ -290,22 +328,7 @@ func c08filledFromTable(g *core.FuncInfo, e ast.Expr, at core.Point, table strin
 	if v == nil || v.IsField() {
 		return classify(e, nil, at) == 1
 	}
-	good := 0
-	for _, d := range assignsToVar(g, v) {
-		if d.RHS == nil {
-			if c33isValueSpec(d.Stmt) {
-				continue
-			}
-			return false
-		}
-		switch classify(d.RHS, v, d.Pt) {
-		case 1:
-			good++
-		case -1:
-			return false
-		}
-	}
-	return good > 0
+	return fromVar(v)
 }
 
 // methodNamedSel: does the selector denote a method (value) with this name?
